@@ -1,7 +1,8 @@
 """Bounded stand-ins (labelled bounded, never counted as proved): small in-package tests injected with -overlay."""
 import json, os, re, subprocess
 
-TESTS = {"C18": ("c18_float_test.go.txt", "TestVerifBoundedC18", "appendFloat vs encoding/json on powers of ten +-2ulp, every binade x 4 mantissas, 2000 smallest subnormals, seeded random bit patterns")}
+TESTS = {"C04": ("c04_strings_test.go.txt", "TestVerifBoundedC04", "string kernels and their Go glue through Parse (copy and in-place mode) vs a reference decoder: all bodies over a 9-symbol alphabet (letters, backslash, quote, u, n, hex digits, a control byte) up to length 4 (quick) / 5 (thorough) plus selected escapes and surrogate pairs, at 12 chunk offsets and 3 distances from the end of the input"),
+         "C18": ("c18_float_test.go.txt", "TestVerifBoundedC18", "appendFloat vs encoding/json on powers of ten +-2ulp, every binade x 4 mantissas, 2000 smallest subnormals, seeded random bit patterns")}
 
 def run(prop, tier, seed, here, repo, env, scratch):
     if prop not in TESTS:
@@ -22,6 +23,7 @@ def run(prop, tier, seed, here, repo, env, scratch):
     mism = re.findall(r"BOUNDED-MISMATCH (.*)", out)
     obl = {"id": "bounded/%s/%s" % (prop, tname), "status": "discharged" if (not mism and cases > 0) else "failed", "engine": "bounded",
            "solvers": ["go-test"], "time": 0, "model": "\n".join(mism[:10]) or out[-800:] if (mism or cases == 0) else "", "pos": "", "kind": "bounded",
-           "instances": cases, "vc_bytes": 0, "weak": False, "func": tname, "bounded": True}
+           "instances": cases, "vc_bytes": 0, "weak": False, "func": tname, "bounded": True,
+           "raw": "\n".join("BOUNDED-MISMATCH " + x for x in mism[:20]), "rerun": "go test -tags verif -run '^%s$' with /verif/bounded/%s copied into the package" % (tname, fname)}
     return {"obligations": [obl], "functions": [], "errors": [],
             "bounded": [{"what": what, "bound": "seed %d" % seed, "cases": cases, "mismatches": len(mism)}]}
